@@ -227,6 +227,25 @@ func Open(dir string, opts ...walOpt) (*WAL, error) {
 	// don't need to jump through the mutateState hoops yet!
 	w.s.Store(&newState)
 
+	if recoveredTail {
+		// The tail may have been sealed by its last append (or a tail truncation)
+		// without the rotation that follows having been committed, because we
+		// crashed or were closed first. Complete the rotation now, otherwise every
+		// append would fail with ErrSealed.
+		sealed, indexStart, err := newState.tail.Sealed()
+		if err != nil {
+			return nil, err
+		}
+		if sealed {
+			w.writeMu.Lock()
+			err := w.rotateSegmentLocked(indexStart)
+			w.writeMu.Unlock()
+			if err != nil {
+				return nil, err
+			}
+		}
+	}
+
 	// Delete any unused segment files left over after a crash.
 	w.deleteSegments(toDelete)
 
